@@ -52,7 +52,7 @@ Ltac op_step :=
   | |- ok_post (kbind (kget _ _) _) _ => apply op_bind_kget; [op_side | cbv beta]
   | |- ok_post (kbind (kupd _ _ _) _) _ => apply op_bind_kupd; [op_side | cbv beta]
   | |- ok_post (kbind (KOk _) _) _ => cbn [kbind]
-  | |- ok_post (kbind (kbind _ _) _) _ => rewrite kbind_assoc; cbv beta
+  | |- ok_post (kbind (kbind _ _) _) _ => rewrite kbind_assoc4; cbv beta
   | |- ok_post (kbind (if ?b then _ else _) _) _ => destruct b eqn:?
   | |- ok_post (KOk _) _ => apply op_ret
   | |- ok_post (kupd _ _ _) _ => apply op_kupd; [op_side|]
@@ -208,4 +208,192 @@ Proof.
     assert (0 <= zsum (fun q => at_ offsets (q + 1) - at_ oc q) (Z.to_nat length)).
     { apply zsum_nonneg. intros q Hq. assert (0 <= q < length) as Hq' by lia. specialize (Rg q Hq'). lia. }
     lia.
+Qed.
+
+(* ================================================================================================ *)
+(** * awkward_ListOffsetArray_reduce_nonlocal_outstartsstops_64: block k of distincts (maxcount slots from
+      k*maxcount) starts with [run_len] used slots (<> -1); the output list k is that run, or (0, 0) if it is empty *)
+Fixpoint run_len (d : list Z) (start : Z) (n : nat) : Z :=
+  match n with
+  | O => 0
+  | S n' => if at_ d start =? -1 then 0 else 1 + run_len d (start + 1) n'
+  end.
+
+Lemma run_len_bounds d s n : 0 <= run_len d s n <= Z.of_nat n.
+Proof. revert s; induction n; intros s; cbn [run_len]; [lia|]. destruct (at_ d s =? -1); [lia|]. specialize (IHn (s + 1)). lia. Qed.
+
+Lemma outstartsstops_while d e n s :
+  0 <= s -> s + Z.of_nat n = e -> e <= zlen d ->
+  kwhile n (fun stop => (stop <? e) && match kget d stop with KOk x => negb (x =? -1) | _ => true end)
+           (fun stop => let* _ := kget d stop in KOk (stop + 1)) s
+  = KOk (s + run_len d s n).
+Proof.
+  revert s; induction n; intros s Hs He Hd; cbn [kwhile run_len].
+  - replace (s <? e) with false by lia. cbn [andb]. f_equal. lia.
+  - replace (s <? e) with true by lia. cbn [andb]. rewrite (kget_at d s) by lia.
+    destruct (at_ d s =? -1); cbn [negb]; [f_equal; lia|]. cbn [kbind]. rewrite IHn by lia. f_equal. lia.
+Qed.
+
+Theorem ListOffsetArray_reduce_nonlocal_outstartsstops_64_spec outstarts outstops distincts lendistincts outlength :
+  0 <= outlength -> outlength <= zlen outstarts -> outlength <= zlen outstops -> 0 <= lendistincts <= zlen distincts ->
+  exists os op, reduce_nonlocal_outstartsstops outstarts outstops distincts lendistincts outlength = KOk (os, op) /\
+    zlen os = zlen outstarts /\ zlen op = zlen outstops /\
+    forall k, 0 <= k ->
+      if k <? outlength
+      then (let maxcount := lendistincts / outlength in
+            let r := run_len distincts (k * maxcount) (Z.to_nat maxcount) in
+            at_ os k = (if r =? 0 then 0 else k * maxcount) /\ at_ op k = (if r =? 0 then 0 else k * maxcount + r))
+      else at_ os k = at_ outstarts k /\ at_ op k = at_ outstops k.
+Proof.
+  intros Hol H1 H2 H3. unfold reduce_nonlocal_outstartsstops.
+  set (mc := if outlength =? 0 then 0 else lendistincts / outlength).
+  match goal with |- exists os op, ?rr = _ /\ _ => cut (ok_post rr (fun st : list Z * list Z =>
+      zlen (fst st) = zlen outstarts /\ zlen (snd st) = zlen outstops /\
+      forall k, 0 <= k ->
+        if k <? outlength
+        then (let r := run_len distincts (k * mc) (Z.to_nat mc) in
+              at_ (fst st) k = (if r =? 0 then 0 else k * mc) /\ at_ (snd st) k = (if r =? 0 then 0 else k * mc + r))
+        else at_ (fst st) k = at_ outstarts k /\ at_ (snd st) k = at_ outstops k)) end.
+  - intros ([os op] & E & L1 & L2 & A). cbn [fst snd] in *.
+    exists os, op. split; [exact E|]. split; [auto|]. split; [auto|].
+    intros k Hk. specialize (A k Hk). destruct (k <? outlength) eqn:E1; [|auto].
+    unfold mc in A. replace (outlength =? 0) with false in A by lia. exact A.
+  - apply (op_kfor _ (fun j (st : list Z * list Z) =>
+      zlen (fst st) = zlen outstarts /\ zlen (snd st) = zlen outstops /\
+      forall k, 0 <= k ->
+        if k <? j
+        then (let r := run_len distincts (k * mc) (Z.to_nat mc) in
+              at_ (fst st) k = (if r =? 0 then 0 else k * mc) /\ at_ (snd st) k = (if r =? 0 then 0 else k * mc + r))
+        else at_ (fst st) k = at_ outstarts k /\ at_ (snd st) k = at_ outstops k)); [lia| |].
+    + cbn [fst snd]. split; [auto|]. split; [auto|]. intros k Hk. replace (k <? 0) with false by lia. auto.
+    + intros j [os op] Hj (L1 & L2 & A). cbn [fst snd] in *.
+      assert (M : 0 <= mc /\ (j + 1) * mc <= lendistincts).
+      { unfold mc. replace (outlength =? 0) with false by lia.
+        assert (0 <= lendistincts / outlength) by (apply Z.div_pos; lia).
+        assert (outlength * (lendistincts / outlength) <= lendistincts) by (apply Z.mul_div_le; lia). split; [lia|nia]. }
+      rewrite (outstartsstops_while distincts (j * mc + mc) (Z.to_nat mc) (j * mc)) by nia. cbn [kbind].
+      pose proof (run_len_bounds distincts (j * mc) (Z.to_nat mc)) as RB.
+      set (r := run_len distincts (j * mc) (Z.to_nat mc)) in *.
+      destruct (if j * mc + r =? j * mc then (0, 0) else (j * mc, j * mc + r)) as [a b] eqn:AB.
+      op_auto. cbn [fst snd]. rewrite !zlen_set_nth. split; [auto|]. split; [auto|].
+      intros k Hk. rewrite !at_set_nth_z by lia. specialize (A k Hk). destruct (k =? j) eqn:E.
+      * replace (k <? j + 1) with true by lia. replace k with j by lia. fold r. cbv zeta.
+        destruct (r =? 0) eqn:R0.
+        -- replace (j * mc + r =? j * mc) with true in AB by lia. inversion AB. auto.
+        -- replace (j * mc + r =? j * mc) with false in AB by lia. inversion AB. auto.
+      * destruct (k <? j) eqn:E1; [replace (k <? j + 1) with true by lia|replace (k <? j + 1) with false by lia]; auto.
+Qed.
+
+(* ================================================================================================ *)
+(** * awkward_IndexedArray_local_preparenext_64: the entries of parents are matched greedily, in order, against
+      nextparents; [lp_matched n] is the number of matches among the first n entries *)
+Fixpoint lp_matched (parents nextparents : list Z) (nextlen : Z) (n : nat) : Z :=
+  match n with
+  | O => 0
+  | S n' => let j := lp_matched parents nextparents nextlen n' in
+            if (j <? nextlen) && (at_ parents (Z.of_nat n') =? at_ nextparents j) then j + 1 else j
+  end.
+
+Lemma lp_matched_bounds parents nextparents nextlen n :
+  0 <= lp_matched parents nextparents nextlen n <= Z.of_nat n /\
+  (0 <= nextlen -> lp_matched parents nextparents nextlen n <= nextlen).
+Proof.
+  induction n; cbn [lp_matched]; [lia|].
+  destruct ((lp_matched parents nextparents nextlen n <? nextlen) &&
+            (at_ parents (Z.of_nat n) =? at_ nextparents (lp_matched parents nextparents nextlen n))) eqn:E; lia.
+Qed.
+
+(** tocarry[i] = -1 (entry i has no partner) or the number j of matches before i, and then j < nextlen and
+    parents[i] = nextparents[j]: the matched entries receive 0, 1, 2, ... in order *)
+Theorem IndexedArray_local_preparenext_64_spec tocarry starts parents parentslength nextparents nextlen :
+  0 <= parentslength -> parentslength <= zlen parents -> parentslength <= zlen tocarry -> nextlen <= zlen nextparents ->
+  (forall i, 0 <= i < parentslength -> 0 <= at_ parents i < zlen starts) ->
+  exists out, IndexedArray_local_preparenext tocarry starts parents parentslength nextparents nextlen = KOk out /\
+    zlen out = zlen tocarry /\
+    forall q, 0 <= q ->
+      at_ out q = if q <? parentslength
+                  then (let j := lp_matched parents nextparents nextlen (Z.to_nat q) in
+                        if (j <? nextlen) && (at_ parents q =? at_ nextparents j) then j else -1)
+                  else at_ tocarry q.
+Proof.
+  intros Hn H1 H2 H3 Hr. unfold IndexedArray_local_preparenext.
+  match goal with |- exists out, kbind ?rr _ = _ /\ _ => assert (G : ok_post rr (fun st : list Z * Z =>
+      zlen (fst st) = zlen tocarry /\ snd st = lp_matched parents nextparents nextlen (Z.to_nat parentslength) /\
+      forall q, 0 <= q ->
+        at_ (fst st) q = if q <? parentslength
+                         then (let j := lp_matched parents nextparents nextlen (Z.to_nat q) in
+                               if (j <? nextlen) && (at_ parents q =? at_ nextparents j) then j else -1)
+                         else at_ tocarry q)) end.
+  { apply (op_kfor _ (fun n (st : list Z * Z) =>
+      zlen (fst st) = zlen tocarry /\ snd st = lp_matched parents nextparents nextlen (Z.to_nat n) /\
+      forall q, 0 <= q ->
+        at_ (fst st) q = if q <? n
+                         then (let j := lp_matched parents nextparents nextlen (Z.to_nat q) in
+                               if (j <? nextlen) && (at_ parents q =? at_ nextparents j) then j else -1)
+                         else at_ tocarry q)); [lia| |].
+    - cbn [fst snd]. split; [auto|]. split; [reflexivity|]. intros q Hq. now replace (q <? 0) with false by lia.
+    - intros i [out j] Hi (L & J & A). cbn [fst snd] in *. specialize (Hr i Hi).
+      pose proof (lp_matched_bounds parents nextparents nextlen (Z.to_nat i)) as (B & _).
+      assert (MS : lp_matched parents nextparents nextlen (Z.to_nat (i + 1))
+                   = if (j <? nextlen) && (at_ parents i =? at_ nextparents j) then j + 1 else j).
+      { replace (Z.to_nat (i + 1)) with (S (Z.to_nat i)) by lia. cbn [lp_matched].
+        replace (Z.of_nat (Z.to_nat i)) with i by lia. rewrite <- J. reflexivity. }
+      assert (Upd : forall v, v = (if (j <? nextlen) && (at_ parents i =? at_ nextparents j) then j else -1) ->
+                forall q, 0 <= q ->
+                  at_ (set_nth out (Z.to_nat i) v) q =
+                  if q <? i + 1
+                  then (let j := lp_matched parents nextparents nextlen (Z.to_nat q) in
+                        if (j <? nextlen) && (at_ parents q =? at_ nextparents j) then j else -1)
+                  else at_ tocarry q).
+      { intros v Hv q Hq. rewrite at_set_nth_z by lia. destruct (q =? i) eqn:E.
+        - replace (q <? i + 1) with true by lia. replace q with i by lia. cbv zeta. rewrite <- J. exact Hv.
+        - rewrite A by lia. destruct (q <? i) eqn:E1; [replace (q <? i + 1) with true by lia|replace (q <? i + 1) with false by lia]; auto. }
+      op_step. op_step. destruct (j <? nextlen) eqn:C1.
+      + op_step. destruct (at_ parents i =? at_ nextparents j) eqn:C2; cbn [andb] in *.
+        * op_auto. cbn [fst snd]. rewrite zlen_set_nth. split; [auto|]. split; [now rewrite MS|]. apply Upd. reflexivity.
+        * op_auto. cbn [fst snd]. rewrite zlen_set_nth. split; [auto|]. split; [now rewrite MS|]. apply Upd. reflexivity.
+      + cbn [andb] in *. op_auto. cbn [fst snd]. rewrite zlen_set_nth. split; [auto|]. split; [now rewrite MS|]. apply Upd. reflexivity. }
+  destruct G as ([out j] & E & L & _ & A). rewrite E. cbn [kbind fst snd] in *. exists out. auto.
+Qed.
+
+(* ================================================================================================ *)
+(** * awkward_ListOffsetArray_reduce_nonlocal_findgaps_64: one gap per new running maximum of parents
+      (for sorted parents: per distinct value), gap = value - previous maximum, starting from -1 *)
+Fixpoint fg_state (parents : list Z) (n : nat) : list Z * Z :=
+  match n with
+  | O => ([], -1)
+  | S n' => let g := fst (fg_state parents n') in
+            let last := snd (fg_state parents n') in
+            let p := at_ parents (Z.of_nat n') in
+            if last <? p then (g ++ [p - last], p) else (g, last)
+  end.
+
+Theorem ListOffsetArray_reduce_nonlocal_findgaps_64_spec gaps parents lenparents :
+  0 <= lenparents <= zlen parents ->
+  (forall i, 0 <= i < lenparents -> at_ parents i < zlen gaps) ->
+  reduce_nonlocal_findgaps gaps parents lenparents
+  = KOk (fst (fg_state parents (Z.to_nat lenparents))
+         ++ skipn (length (fst (fg_state parents (Z.to_nat lenparents)))) gaps).
+Proof.
+  intros Hn Hr. unfold reduce_nonlocal_findgaps.
+  match goal with |- kbind ?rr _ = _ => assert (G : ok_post rr (fun st : list Z * Z * Z =>
+      st = (fst (fg_state parents (Z.to_nat lenparents))
+            ++ skipn (length (fst (fg_state parents (Z.to_nat lenparents)))) gaps,
+            zlen (fst (fg_state parents (Z.to_nat lenparents))), snd (fg_state parents (Z.to_nat lenparents))))) end.
+  { eapply op_weaken; [apply (op_kfor _ (fun j (st : list Z * Z * Z) =>
+      st = (fst (fg_state parents (Z.to_nat j)) ++ skipn (length (fst (fg_state parents (Z.to_nat j)))) gaps,
+            zlen (fst (fg_state parents (Z.to_nat j))), snd (fg_state parents (Z.to_nat j))) /\
+      zlen (fst (fg_state parents (Z.to_nat j))) <= snd (fg_state parents (Z.to_nat j)) + 1 /\
+      (snd (fg_state parents (Z.to_nat j)) = -1 \/ snd (fg_state parents (Z.to_nat j)) < zlen gaps))); [lia| |]|].
+    - split; [reflexivity|]. cbn. lia.
+    - intros j st Hj (-> & K & B). specialize (Hr j Hj).
+      replace (Z.to_nat (j + 1)) with (S (Z.to_nat j)) by lia. cbn [fg_state].
+      replace (Z.of_nat (Z.to_nat j)) with j by lia.
+      set (g := fst (fg_state parents (Z.to_nat j))) in *. set (last := snd (fg_state parents (Z.to_nat j))) in *.
+      op_step. destruct (last <? at_ parents j) eqn:C.
+      + rewrite kpush_app by lia. cbn [kbind fst snd]. apply op_ret. split; [reflexivity|].
+        rewrite zlen_app. unfold zlen at 2. cbn [length]. lia.
+      + apply op_ret. cbn [fst snd]. auto.
+    - intros st (-> & _). reflexivity. }
+  destruct G as (st & E & ->). rewrite E. reflexivity.
 Qed.
